@@ -34,6 +34,9 @@ def C05(tier, rng):
         cs.append(enc_case(rand_msg(rng), 'valid'))
     for m in big_msgs(rng, tier) + limit_values(rng) + boundary_msgs(rng):
         cs.append(enc_case(m, 'big/limit'))
+    for off in range(0x3FFF - 24, 0x3FFF + 4, sz(tier, 2, 1)):
+        for m in (straddle_msg(off), high_offset_msg(rng, off)):
+            if m: cs.append(enc_case(m, 'straddle'))
     for _ in range(sz(tier, 2000, 20000)):
         rr = rand_rr(rng, None, [])
         cs.append(Case('enc.rr %s' % prr(rr), 'rr%d' % rr['ty']))
@@ -89,6 +92,13 @@ def C06(tier, rng):
     for off in range(0x3FFF - 48, 0x4000 + 49, sz(tier, 3, 1)):
         m = high_offset_msg(rng, off)
         if m: cs.append(enc_case(m, 'hioff'))
+    for off in range(0x3FFF - 48, 0x4000 + 8, sz(tier, 2, 1)):
+        for labels in ((b'aaaa', b'bbbb', b'cc', b'example'), (b'first', b'second', b'example'), (b'a', b'b', b'c', b'd', b'e', b'f')):
+            m = straddle_msg(off, labels)
+            if m: cs.append(enc_case(m, 'straddle'))
+    for step in (5, 9, 15, 30, 62):
+        names = nested_long_names(step)
+        cs.append(enc_case(names_msg(names + names[::-1], ['o'] * len(names) + ['r'] * len(names)), 'nested-long'))
     # long random sequences
     for _ in range(sz(tier, 60, 300)):
         pool = []
@@ -122,6 +132,20 @@ def C07(tier, rng):
         cs.append(Case('dec.dns %s' % hx(hdr + maze(rng, size - 12)), 'maze-msg'))
     for m, b, r in layouts(rng, sz(tier, 1000, 10000)):
         cs.append(Case('dec.dns %s' % hx(b), 'valid'))
+    for pl in (1, 2, 10, 62, 63):
+        for tot in range(248 - pl, 262 - pl):
+            if tot >= 1: cs.append(Case('dec.dns %s' % hx(split_long_name_msg(pl, tot)), 'split-long'))
+    cs.append(Case('dec.dns %s' % hx(split_long_name_msg(63, 255)), 'split-long'))
+    for step in (5, 9, 15, 20, 30, 62):
+        names = nested_long_names(step)
+        m = msg_with([{'ty': 2, 'name': n, 'ttl': 0, 'cls': 1, 'f': [n]} for n in names])
+        b, _ = render(m, Layout(random.Random(step), compress=1.0))
+        cs.append(Case('dec.dns %s' % hx(b), 'nested-long'))
+    # labels between pointers: more than 17 hops with no long run of back-to-back pointers; cycles through a label
+    for k in range(14, 40):
+        cs.append(Case('dec.dns %s' % hx(hop_chain_msg(k)), 'label-hops%d' % k))
+    cs.append(Case('dec.dns %s' % hx(b'\0\0\0\0\0\1' + b'\0' * 6 + b'\1a\xc0\x0c\0\1\0\1'), 'label-cycle'))
+    cs.append(Case('dec.name %s' % hx(b'\1a\xc0\x00'), 'label-cycle'))
     # self references and 2-cycles at every small offset
     for off in range(0, 64):
         b = bytearray(b'\0' * off) + ptr(off)
@@ -159,6 +183,17 @@ def C08(tier, rng):
         # the last record is a name-bearing one: labels written beyond offset 65,535
         k = total - 12 - 1 - 10 - 30
         cs.append(enc_case(msg_with([{'ty': 10, 'name': (), 'ttl': 0, 'cls': 1, 'f': [bytes(k)]}, {'ty': 2, 'name': (b'tail', b'x'), 'ttl': 0, 'cls': 1, 'f': [(b'ns', b'tail', b'x')]}]), 'tail%d' % total))
+    for off in range(0x3FFF - 20, 0x3FFF + 2, sz(tier, 3, 1)):
+        for m in (straddle_msg(off), high_offset_msg(rng, off)):
+            if m: cs.append(enc_case(m, 'straddle'))
+    # a question section that alone exceeds 65,535 octets while its count stays below 65,536 (no records at all)
+    rootq = {'name': (), 'qtype': 1, 'qclass': 1}
+    for n in ((13104, 13105, 13106) if tier == 'quick' else (13103, 13104, 13105, 13106, 20000)):
+        cs.append(enc_case(msg_with([], qs=[rootq] * n), 'qsize%d' % n))
+    ln = long_name(255)
+    for n in ((254, 255, 256, 257) if tier == 'quick' else (250, 251, 252, 253, 254, 255, 256, 257, 258, 300)):
+        qs = [{'name': (b'%03d' % i,) + ln[1:], 'qtype': 1, 'qclass': 1} for i in range(n)]
+        cs.append(enc_case(msg_with([], qs=qs), 'qlong%d' % n))
     # sections of 65,535 / 65,536 / 65,537 entries
     q = {'name': (), 'qtype': 1, 'qclass': 1}
     for n in (65535, 65536, 65537) if tier == 'thorough' else (65536,):
@@ -211,6 +246,26 @@ def C10(tier, rng):
         h = n.to_bytes(2, 'big').hex()
         for e in ('type', 'class', 'qtype', 'qclass', 'flags'):
             cs.append(Case('dec.%s %s' % (e, h), 'dec2'))
+    # element codecs after a failing call of the same kind on the same thread, and stand-alone records whose
+    # RDATA names point at the owner name at offset 0
+    bad = ['enc.rr %s' % prr({'ty': 13, 'name': (b'a', b'example'), 'ttl': 0, 'cls': 1, 'f': [b'c' * 300, b'x']}),
+           'enc.struct %s' % prr({'ty': 16, 'name': (b't', b'example'), 'ttl': 0, 'cls': 1, 'f': [[b's' * 256]]}),
+           'enc.dns %s' % pmsg(msg_with([{'ty': 10, 'name': (b'big', b'example'), 'ttl': 0, 'cls': 1, 'f': [bytes(40000)]}] * 2))]
+    for _ in range(sz(tier, 200, 2000)):
+        pool = [(b'a', b'example'), (b'big', b'example')]
+        cs.append(Case(rng.choice(bad), 'failing-enc'))
+        cs.append(Case('enc.question %s' % pquestion(rand_question(rng, pool)), 'after-fail'))
+        cs.append(Case('enc.name %s' % pname(rand_name(rng, pool)), 'after-fail'))
+        rr = rand_rr(rng, rng.choice([2, 5, 6, 14, 15]), pool)
+        cs.append(Case('enc.rr %s' % prr(rr), 'after-fail'))
+    for ty in (6, 14):
+        for owner in ((b'example', b'org'), (b'a',), ()):
+            n1 = (b'ns',) + owner; n2 = (b'admin',) + n1
+            f = [n1, n2, 1, 2, 3, 4, 5] if ty == 6 else [n1, n2]
+            rr = {'ty': ty, 'name': owner, 'ttl': 5, 'cls': 1, 'f': f}
+            cs.append(Case('enc.rr %s' % prr(rr), 'standalone-ptr0'))
+            r = Renderer(Layout(random.Random(1), compress=1.0)); r.rr(rr)
+            cs.append(Case('dec.rr %s' % hx(bytes(r.out)), 'standalone-ptr0'))
     return cs
 
 def all_flags(rcodes=RCODES_4BIT):
@@ -318,6 +373,22 @@ def C12(tier, rng):
         labs = [rng.choice([b'a', b'x' * 63, b'y' * 30, b'', b'z' * 64, b'\xe2\x84\xaa', b'm' * rng.randint(1, 63)]) for _ in range(rng.randint(1, 12))]
         cs.append(Case('api.name %s' % ' '.join(hx(l) for l in labs), 'name-hist'))
     for n in (0, 1, 2, 100): cs.append(Case('api.nev %d' % n, 'nev'))
+    # values obtained by DECODING must satisfy the same constraints: names around the limit reached through pointers,
+    # address-prefix items at the constraint boundary
+    for pl in (1, 10, 62, 63):
+        for tot in range(248 - pl, 262 - pl):
+            if tot >= 1: cs.append(Case('dec.dns %s' % hx(split_long_name_msg(pl, tot)), 'decoded-name'))
+    for step in (9, 15, 30, 62):
+        names = nested_long_names(step)
+        m = msg_with([{'ty': 2, 'name': n, 'ttl': 0, 'cls': 1, 'f': [n]} for n in names])
+        b, _ = render(m, Layout(random.Random(step), compress=1.0))
+        cs.append(Case('dec.dns %s' % hx(b), 'decoded-name'))
+    for fam, size in ((1, 4), (2, 16)):
+        for pfx in list(range(0, 8 * size + 2)):
+            for a in (b'\xff' * size, (b'\x80' + b'\0' * (size - 1)), b'\0' * (size - 1) + b'\1', bytes([0x0a, 0x40, 0x80, 0x20] * (size // 4))):
+                cs.append(Case('dec.rr %s' % hx(opt_rr([opt_option(8, fam.to_bytes(2, 'big') + bytes([pfx % 256, 0]) + a)])), 'decoded-ecs'))
+                cs.append(Case('dec.rr %s' % hx(opt_rr([opt_option(8, fam.to_bytes(2, 'big') + bytes([0, pfx % 256]) + a)])), 'decoded-ecs'))
+                cs.append(Case('dec.rr %s' % hx(apl_rr([fam.to_bytes(2, 'big') + bytes([pfx % 256, size]) + a])), 'decoded-apl'))
     samples = [b'', b'issue', b'ISSUE', b'Issue9', b'iss ue', b'iss-ue', b'0123456789', b'12a', b'abcdefABCDEF0189', b'xyz', b'\xc3\xa9', b'1\xc2\xb2', b'a' * 300, b'9' * 300]
     for s in samples:
         for op in ('tag', 'psdn', 'isdn', 'sa'):
@@ -372,6 +443,9 @@ def C13(tier, rng):
         cs.append(Case('api.name %s' % ' '.join(hx(l) for l in n), 'append-limit'))
         w = b''.join(bytes([len(l)]) + l for l in n) + b'\0'
         cs.append(Case('dec.name %s' % hx(w), 'decode-limit'))
+    for pl in (1, 10, 62, 63):
+        for tot in range(250 - pl, 262 - pl):
+            if tot >= 1: cs.append(Case('dec.dns %s' % hx(split_long_name_msg(pl, tot)), 'decode-limit-ptr'))
     for s in (b'', b'.', b'..', b'a..b', b'.a', b'a.', b'a..', b'\xe2\x84\xaa.example.'):
         cs.append(Case('text.parse %s' % hx(s), 'parse-edge'))
     return cs
